@@ -181,8 +181,10 @@ _WORLD = {
     'C17': ((2, 2, 5), (2, 3, 7)),
     'C18': ((2, 0, 4), (2, 0, 6)),
     'C19': ((2, 0, 6), (3, 0, 8)),
-    'C20': ((2, 1, 4), (2, 2, 6)),
+    'C20': ((2, 1, 3), (2, 2, 5)),
 }
+# dedup history window (last k operations in the key) of the quick tier where it is affordable; thorough always uses 2
+_WORLD_K = {'C07': 2, 'C15': 2, 'C03': 2}
 # extra runs (modules, deviations, depth) per tier: wider populations at smaller depth
 _WORLD_EXTRA = {
     'C02': ([(3, 1, 3)], [(3, 1, 4)]),
@@ -196,7 +198,7 @@ for _p, (_q, _t) in _WORLD.items():
                       bounds=dict(quick='modules=%d deviations<=%d depth=%d' % _q + ''.join('; modules=%d deviations<=%d depth=%d' % x for x in _xq),
                                   thorough='modules=%d deviations<=%d depth=%d k=2' % _t + ''.join('; modules=%d deviations<=%d depth=%d' % x for x in _xt)),
                       assumptions=['single thread, one context', 'real kernel pipes/epoll, virtual time through the link-time shim', 'handles passed are live references owned by the caller'],
-                      parts=[world_part('w', quick=[_w(_p, _q[0], _q[1], _q[2], 200)] + [_w(_p, x[0], x[1], x[2], 200) for x in _xq],
+                      parts=[world_part('w', quick=[_w(_p, _q[0], _q[1], _q[2], 250, _WORLD_K.get(_p, 1))] + [_w(_p, x[0], x[1], x[2], 200) for x in _xq],
                                         thorough=[_w(_p, _t[0], _t[1], _t[2], 2400, 2)] + [_w(_p, x[0], x[1], x[2], 1200, 2) for x in _xt])])
 
 
@@ -220,3 +222,10 @@ CHECKS['C14'] = dict(
                        quick=[_c14_runs(2, 'wide', 2, 100), _c14_runs(2, 'task', 2, 100), _c14_runs(2, 'narrow', 2, 100, 1)],
                        thorough=[_c14_runs(3, 'narrow', 2, 900), _c14_runs(2, 'wide', 2, 900), _c14_runs(2, 'task', 2, 900)])],
 )
+
+# C15: a second part for nested callbacks (a DENY_CTX module whose callback runs inside another module's callback)
+CHECKS['C15']['parts'].append(world_part('nested', quick=[_w('C15N', 2, 2, 4, 200)], thorough=[_w('C15N', 2, 3, 6, 900, 2)]))
+CHECKS['C15']['bounds']['quick'] += '; nested-callback profile (A registered with DENY_CTX, B plain): depth 4, <=2 armed actions'
+# C04: besides the union alphabet, the source/retained-event profile (same oracle: ASan + both ledgers + zombie queries)
+CHECKS['C04']['parts'].append(world_part('sources', quick=[_w('C20', 2, 1, 3, 250)], thorough=[_w('C20', 2, 2, 5, 1500, 2)]))
+CHECKS['C04']['bounds']['quick'] += '; source/retained-event profile: depth 3, <=1 armed action'
